@@ -111,7 +111,7 @@ def run(ctx):
             rv = st['rv']
             if 'seq_offset' in rv['fields']:
                 o = newp.origin(rv['a'][rv['fields'].index('seq_offset')])
-                okn = o[0] == 'local' and '*' in o[2] and newp.lname(o[1]) == 'seq'
+                okn = o[0] == 'local' and '*' in o[2] and (newp.lname(o[1]) == 'seq' or (1 <= o[1] <= newp.argc and newp.lty(o[1]).startswith('&mut u64')))
         ctx.ob('C15.2', newp, 'offset-from-seq-at-construction', okn, 'seq_offset = *seq at construction', line=newp.line)
     writers = 0
     for p, f in P.fns.items():
@@ -168,3 +168,30 @@ def run(ctx):
         ok = any(pb.dom(c.bb, s_.bb) for c in ext) or any(t is not None and pb.edge_dom(bb, t, s_.bb) for (bb, t) in empties)
         ctx.ob('C15.4', pb, 'through-carry-buffer', ok, 'text reaches the decoder %s' % ('only after the chunk was appended to the carry-over buffer (or with the buffer empty)' if ok else
                'on a path that BYPASSES the carry-over buffer: pending bytes of a split sequence are skipped or re-ordered'), line=s_.line)
+
+    # ---------------------------------------------------------------- C15.5
+    ctx.rule('C15.5', 'the chunk joins the pending line buffer untouched: in SseDecoder::push the text appended to self.buffer is the `chunk` parameter itself (transparent conversions only) and that append dominates every other use of the parameter. Any rewrite of the chunk alone (replace / trim / split / lines ...) is stateless across pushes, so what it produces depends on where the network split the bytes (CR | LF, field name | colon, ...); line handling must work on the buffer, after the append.')
+    TRANSPARENT_TXT = r'::as_ref$|::deref$|::as_str$|::borrow$|::to_string$|::to_owned$|::clone$|::into$|::from$|::as_bytes$|::len$|::is_empty$'
+    dec = P.fn('rip_provider_openresponses::SseDecoder::push')
+    ctx.touch(dec)
+    apps = [c for c in dec.calls(r'^alloc::string::String::(push_str|insert_str|extend)$|String as core::ops::arith::AddAssign<&str>>::add_assign$|String as core::iter::traits::collect::Extend')
+            if ('param', 1) in sources(dec, c.args[0])]
+    if not apps:
+        raise CheckError('C15.5: SseDecoder::push does not append to its buffer (anchor missing)')
+    first = [c for c in apps if all(dec.dom(c.bb, x.bb) for x in apps)]
+    a0 = first[0] if first else apps[0]
+    src = sources(dec, a0.args[-1])
+    calls_in = sorted({x[1] for x in src if x[0] == 'call' and not re.search(TRANSPARENT_TXT, x[1])})
+    from_chunk = ('param', 2) in src
+    ctx.ob('C15.5', dec, 'chunk-appended-verbatim', from_chunk and not calls_in,
+           'the first append to the line buffer takes %s' % ('the chunk parameter itself' if from_chunk and not calls_in else
+           'a REWRITTEN chunk (%s): a per-chunk rewrite cannot see the previous chunk, so a CR LF / field split by the network is decoded differently' % (', '.join(c.rsplit('::', 1)[-1] for c in calls_in) or 'not the parameter')), line=a0.line)
+    early = []
+    for s_ in dec.sites():
+        if s_.bb == a0.bb or dec.dom(a0.bb, s_.bb) or re.search(TRANSPARENT_TXT, s_.callee):
+            continue
+        if any(2 in reads_locals(dec, a) for a in s_.args):
+            early.append(s_)
+    ctx.ob('C15.5', dec, 'no-use-of-chunk-before-append', not early,
+           'no call consumes the raw chunk before it joined the buffer' if not early else
+           '%s reads the raw chunk before it is buffered (line %d): its result depends on the chunk boundary' % (early[0].name, early[0].line), line=early[0].line if early else a0.line)
